@@ -21,10 +21,14 @@
       minus the bound `self` — never those of the function it wraps;
     * `declTable` — the real `@lcc.fixture(scope=…, per_thread=…)` decorator on all 4 × 2 combinations
       equals `Fixture.declAllowed` (the first stage of `Prepare.prepareFull`).
+    * `tagApplicationTable` / `propApplicationTable` — `add_tag_rule("x", on_test=a, on_suite=b)` / `add_property_rule(…)` for
+      (a, b) ∈ {None, True, False}², observed through the public interface (refused with an AssertionError, or: is a test / a
+      suite carrying `x` accepted afterwards) equals `Policy.ruleApplication` (`Model/PolicySeq.lean`, used by `configure`).
   `Generated/C14Tables.lean` is written by harness/props/c14.py (`tables`).
 -/
 import LccModel.Model.Inject
 import LccModel.Model.Callable
+import LccModel.Model.PolicySeq
 import LccModel.Generated.C14Tables
 
 namespace LccModel.Generated.C14
@@ -66,5 +70,13 @@ theorem callable_table_covers_kinds (k : LccModel.Callable.Kind) : ∃ r ∈ cal
 
 theorem callable_table_has_wrappers :
     ∃ r ∈ callableTable, r.1.wrapped.isSome = true ∧ r.1.wrapped ≠ some r.1.params ∧ r.2 ≠ [] := by decide
+
+theorem tag_application_table_agrees : ∀ r ∈ tagApplicationTable, LccModel.Policy.ruleApplication r.1.1 r.1.2 = r.2 := by decide
+
+theorem prop_application_table_agrees : ∀ r ∈ propApplicationTable, LccModel.Policy.ruleApplication r.1.1 r.1.2 = r.2 := by decide
+
+theorem application_tables_complete (a b : Option Bool) :
+    (a, b) ∈ tagApplicationTable.map (·.1) ∧ (a, b) ∈ propApplicationTable.map (·.1) := by
+  rcases a with _ | a <;> rcases b with _ | b <;> (try cases a) <;> (try cases b) <;> decide
 
 end LccModel.Generated.C14
